@@ -2,7 +2,8 @@
    inputs to this function (extracted to OCaml) and to the JAX implementation. *)
 From Coq Require Import ZArith QArith Qcanon List Bool.
 From EXV Require Import Base.Scalar Base.FieldLemmas Base.Cplx Exec.Codec.
-From EXV Require Import Utils.Rollout Gen.ETDRK Gen.Guards Spectral.Symbols Gen.GenericUtils Steppers.Linear Layout.Freq Nonlin.Conv Nonlin.Terms Spectral.Operators Nonlin.Injection.
+From EXV Require Import Exec.EntryC19.
+From EXV Require Import Utils.Rollout Gen.ETDRK Gen.Guards Spectral.Symbols Gen.GenericUtils Steppers.Linear Layout.Freq Nonlin.Conv Nonlin.Terms Spectral.Operators Nonlin.Injection Spectral.Spectrum.
 Import ListNotations.
 Local Open Scope Z_scope.
 
@@ -274,6 +275,28 @@ Definition run_c12 (sub : Z) (a : list Q) : list Q :=
   | _ => []
   end.
 
+(* ---- C17: radial spectrum.  args: D N power average nmodes then per stored mode: k_1..k_D |u_hat| ---- *)
+Fixpoint take_modes (D : nat) (n : nat) (l : list Q) : list (list Z * QcOps) :=
+  match n with
+  | O => []
+  | S m => (map qz (firstn D l), qqc (nth D l 0%Q)) :: take_modes D m (skipn (S D) l)
+  end.
+Definition run_c17 (sub : Z) (a : list Q) : list Q :=
+  match sub with
+  | 1 =>
+      let D := qn (getq a 0) in let N := qz (getq a 1) in
+      let power := qb (getq a 2) in let avg := qb (getq a 3) in let nm := qn (getq a 4) in
+      let modes := take_modes D nm (skipn 5 a) in
+      let ND := @fpow QcOps (qqc (zq N)) D in
+      let qs := map (fun p => (fst p, (if power then power_q QcOps N ND (fst p) (snd p) else amplitude_q QcOps N ND (fst p) (snd p)))) modes in
+      if (D =? 1)%nat then map (fun p => qcq (snd p)) qs
+      else flat_map (fun b => let c := bin_count QcOps b qs in
+                               [zq c; qcq (if avg then (if (c =? 0)%Z then 0%Qc else Qcdiv (bin_sum QcOps b qs) (qqc (zq c))) else bin_sum QcOps b qs)])
+                    (map Z.of_nat (seq 0 (Z.to_nat (N / 2) + 1)))
+  | 2 => [bq (in_bin (qz (getq a 0)) (zs (skipn 1 a)))]
+  | _ => []
+  end.
+
 Definition run (id : Z) (a : list Q) : list Q :=
   let '(prop, sub) := Z.div_eucl id 100 in
   match prop with
@@ -284,6 +307,8 @@ Definition run (id : Z) (a : list Q) : list Q :=
   | 3 => match sub with 1 => run_term a | _ => [] end
   | 5 => run_ops sub a
   | 12 => run_c12 sub a
+  | 17 => run_c17 sub a
+  | 19 => run_c19 sub a
   | 1 => match sub with 1 => run_sym a | 2 => run_wave a | _ => [] end
   | 13 => match sub with 1 => run_conv a | _ => [] end
   | _ => []
